@@ -34,6 +34,11 @@ import (
 
 const c07Placeholder = "<redacted>"
 
+var (
+	c07LearntMu sync.Mutex
+	c07Learnt   string // the placeholder this tree uses, learnt from the first redacted field
+)
+
 // ---- live configuration snapshot (independent of conf.Clone / Equal) -----------------------
 
 var c07RegexpType = reflect.TypeOf((*regexp.Regexp)(nil))
@@ -421,9 +426,24 @@ func c07CheckPass(t c07Fataler, where string, live *conf.Credential, got any, pr
 			t.Fatalf("%s: empty password rendered as %v (present=%v)\n%s", where, got, present, desc)
 		}
 	default:
-		if !present || got != c07Placeholder {
-			t.Fatalf("%s: non-empty password rendered as %v (present=%v), want the placeholder %q\n%s",
+		// "a fixed placeholder": which text it is, is not part of the statement. The first rendering of a non-empty
+		// password seen by this process is taken as the placeholder (today "<redacted>") and every other one must be
+		// the same string, whatever the secret is; that no secret value (or part of one) appears anywhere in a
+		// response is checked separately on the raw bodies.
+		gs, isStr := got.(string)
+		if !present || !isStr || gs == "" {
+			t.Fatalf("%s: non-empty password rendered as %v (present=%v), want a fixed placeholder (%q)\n%s",
 				where, got, present, c07Placeholder, desc)
+		}
+		c07LearntMu.Lock()
+		if c07Learnt == "" {
+			c07Learnt = gs
+		}
+		want := c07Learnt
+		c07LearntMu.Unlock()
+		if gs != want {
+			t.Fatalf("%s: non-empty password rendered as %q, but another one was rendered as %q: the placeholder is not fixed\n%s",
+				where, gs, want, desc)
 		}
 	}
 }
